@@ -419,3 +419,20 @@ def _replay_c10(model, rec):
 for _u in ("providers.FQN.battery", "providers.FQN.find_obj", "providers.FQN._find_obj_fqn",
            "providers.FQN._find_referenced_obj"):
     replay_for(_u)(_replay_c10)
+
+
+from txvc.props import ASSUME  # noqa: E402
+
+ASSUME["C10"] = [
+    "plain provider only: scope_redirection_logic is None (precondition of every unit); FQNImportURI / FQNGlobalRepo "
+    "are not covered",
+    "A-COMP-PURE: the condition of the comprehension over parent.__dict__ (startswith, callable, getattr, the "
+    "_tx_attrs lookup) has no side effects and raises nothing; the resulting list holds every qualifying own "
+    "attribute name exactly once in an unspecified order",
+    "A-WD (tuples): an attribute value that passes isinstance(obj, (list, tuple)) is iterated as a list; tuple-valued "
+    "attributes are outside the model",
+    "callee parameters are not type-checked at call sites: _find_obj_fqn is applied by contract to p.parent even "
+    "though nothing says that value is an object (an AttributeError there is an implicit exception, not explored)",
+    "nearest-first as ONE postcondition, completeness of the whole chain (needs unique sibling names), termination of "
+    "the parent walk and FQN.__call__ itself are not proved (bounded battery only)",
+]
